@@ -61,7 +61,13 @@ def build_type(ty, rng=None):
     except Exception as e:
         return None, e
     if not conforms(ty, obj):
-        return None, TypingCacheReordered("typing handed back an equal-but-reordered alias (Union member order lost)")
+        # second attempt with spellings whose aliases typing does not cache
+        try:
+            obj = build(ty, rng, uncached=True)
+        except Exception as e:
+            return None, e
+        if not conforms(ty, obj):
+            return None, TypingCacheReordered("typing handed back an equal-but-reordered alias (Union member order lost)")
     return obj, None
 
 
